@@ -991,7 +991,7 @@ def handmade_docs():
   # a span with tts:ruby="none" is an ordinary span
   body = mk("body", {}, [mk("div", {}, [P({}, ["A", mk("span", {q(TTS, "ruby"): "none"}, ["B"])])])])
   docs.append(_serialise(tt([], body)))
-  # tts:textAlign="justify" (TTML2 value)
+  # tts:textAlign="justify" (a TTML2 value outside the IMSC 1.1 text profile, #textAlign-justify: ignored like any malformed value)
   body = mk("body", {}, [mk("div", {}, [P({q(TTS, "textAlign"): "justify"}, ["A"])])])
   docs.append(_serialise(tt([], body)))
   return docs
@@ -1037,7 +1037,7 @@ OTHER_BAD = {
   "tt-extent": [("garbage", "foo"), ("one-component", "100px"), ("percent", "100% 100%"), ("no-unit", "1920 1080")],
   "style": [("unknown-id", "nosuch")],
 }
-UNKNOWN_ATTRS = [("any", q(TTS, "foo"), "bar"), ("any", "bogus", "1"), ("any", q(TTP, "foo"), "bar"), ("any", q(TTS, "fontWeigth"), "bold")]
+UNKNOWN_ATTRS = [("tts:foo", q(TTS, "foo"), "bar"), ("no-namespace", "bogus", "1"), ("ttp:foo", q(TTP, "foo"), "bar"), ("tts:fontWeigth", q(TTS, "fontWeigth"), "bold")]
 
 
 def corruptions_for(elem, attr, frame_rate):
@@ -1092,7 +1092,7 @@ def corrupt_cases(xml_text, r, limit):
   for i in r.sample(content, min(2, len(content))):
     for cid, a, val in UNKNOWN_ATTRS:
       if a not in elems[i].attrib:
-        cases.append((i, a, "unknown-attribute", cid, val, None))
+        cases.append((i, a, "unknown-attribute", f"{cid}@{elems[i].tag.split('}')[-1]}", val, None))
   if limit is not None and len(cases) > limit:
     cases = r.sample(cases, limit)
   out = []
